@@ -46,7 +46,7 @@ def unit_id(unit_type, district, county, k):
     return f"{district}_{county}_{k}"
 
 
-def gen_election(rng, n_states=None, n_units=None, office=None, unit_type=None, with_district=None, tossup=False):
+def gen_election(rng, n_states=None, n_units=None, office=None, unit_type=None, with_district=None, tossup=False, n_districts=None):
     """baseline rows only"""
     if office is None:
         office = rng.choice(["S", "P", "H"]) if with_district is None else ("H" if with_district else rng.choice(["S", "P"]))
@@ -63,7 +63,7 @@ def gen_election(rng, n_states=None, n_units=None, office=None, unit_type=None, 
         n_count = rng.randint(2, 5)
         counties = [f"{si + 1}{c:02d}" for c in range(1, n_count + 1)]
         cclass = {c: rng.choice(CLASSES) for c in counties}
-        dists = rng.sample(DISTRICT_POOL, rng.randint(2, 3)) if district else [None]
+        dists = rng.sample(DISTRICT_POOL, n_districts or rng.randint(2, 3)) if district else [None]
         swing_state = rng.uniform(-0.1, 0.1) if not tossup else rng.uniform(-0.015, 0.015)      # tossup: every contest is close
         k = 0
         attempts = 0
@@ -335,7 +335,7 @@ def gen_params(rng, case, pi_method=None, estimands=None):
 
 
 def gen_case(rng, pi_method=None, threshold=None, **kw):
-    case = gen_election(rng, **{k: v for k, v in kw.items() if k in ("n_states", "n_units", "office", "unit_type", "with_district", "tossup")})
+    case = gen_election(rng, **{k: v for k, v in kw.items() if k in ("n_states", "n_units", "office", "unit_type", "with_district", "tossup", "n_districts")})
     params = gen_params(rng, case, pi_method=pi_method, estimands=kw.get("estimands"))
     if kw.get("aggregates") is not None:
         params["aggregates"] = list(kw["aggregates"])
